@@ -93,6 +93,9 @@ def gen_case(rng, tier, idx):
             p["relativeTimes"] = True
         cfg["P%d" % j] = p
         cfg["simulation"]["sessions"][si].setdefault("events", []).append("P%d" % j)
+    from ..runnerdrive import sprinkle_empty_event_lists
+
+    sprinkle_empty_event_lists(rng, cfg)
     if alter:
         cfg["ALTER"] = {"class": "ProbeEvent", "alter": {"ticks": rng.choice([-3, -1, 2, 5])},
                         "hooks": [{"type": "order", "before": True, "time": None if rng.random() < 0.5 else
